@@ -10,6 +10,11 @@ if "--jobs" in args:
     i = args.index("--jobs")
     jobs = int(args[i + 1])
     del args[i:i + 2]
+outname = "RESULTS.md"
+if "--out" in args:
+    i = args.index("--out")
+    outname = args[i + 1]
+    del args[i:i + 2]
 want = set(args)
 tasks = []
 for kind, pat, expect in (("breaking", "mutants/[CX]*.diff", 1), ("equivalent", "mutants/equivalent/[CX]*.diff", 0)):
@@ -36,7 +41,7 @@ def one(task):
 from concurrent.futures import ThreadPoolExecutor
 with ThreadPoolExecutor(max_workers=jobs) as ex:
     rows = list(ex.map(one, tasks))
-with open(os.path.join(VERIF, "mutants", "RESULTS.md"), "w") as out:
+with open(os.path.join(VERIF, "mutants", outname), "w") as out:
     out.write("# Mutant sweep (tools/mutant_sweep.py, quick tier)\n\n")
     out.write("| property | patch | kind | check rc | violations | drift reported | as expected | s |\n|---|---|---|---|---|---|---|---|\n")
     for r in rows:
